@@ -117,6 +117,11 @@ def family():
     add("rec_defaults6", _rec("Dflt6", [f("first", _enum("Su"), default="A"), f("second", "Su", default="C"), f("third", "Su", default="B"),
                                         f("r1", _rec("In6", [f("v", "int")])), f("r2", "In6", default={"v": 2}),
                                         f("r3", "In6", default={"v": 3})]), "defaults")
+    add("rec_defaults7", _rec("Dflt7", [f("k", "int"), f("grid", {"type": "array", "items": {"type": "array", "items": "int"}}, default=[[1, 2], [3]]),
+                                        f("idx", {"type": "map", "values": {"type": "array", "items": "string"}}, default={"a": ["x", "y"]})]),
+        "defaults")
+    add("rec_defaults_bytes", _rec("Dfb", [f("b", "bytes", default="\u00ff\u0001"), f("fx", _fixed("Fdb", 2), default="\u0000\u00fe"),
+                                           f("fl", "float", default=1.5), f("k", "int", default=7)]), "bytesdefault")
     add("rec_defaults2", _rec("Dflt2", [f("s", "string", default="dd"), f("r", "int"),
                                         f("e", _enum("De"), default="B")]), "defaults")
     # logical types with optional attributes left out
@@ -127,6 +132,10 @@ def family():
     add("hint_foreign", _rec("Hf", [f("p", _rec("Person", [f("name", "string")])),
                                     f("u", ["null", _rec("Locker", [f("n", "int")]), _rec("Addr2", [f("street", "string")])])]),
         "union", "unionrec")
+    # two named branches with the same short name in different namespaces (a hint must name the branch exactly)
+    add("union_same_short_names", [_rec("audit.Event", [f("id", "int", default=0)]), _rec("Event", [f("msg", "string", default="m")]), "null"],
+        "union", "unionrec", "ambiguous")
+    add("union_enum_two_similar_recs", [_enum("Ez"), _rec("Rs1", [f("x", "int")]), _rec("Rs2", [f("x", "int")])], "union", "unionrec", "ambiguous")
     # named branches that accept the same value: only (name, value) reporting tells them apart
     add("union_two_enums_one_rec", [dict(_enum("Ea"), symbols=["A", "B"]), dict(_enum("Eb"), symbols=["B", "C"]),
                                     _rec("Rq", [f("k", "int")]), _fixed("Fq", 1)], "union", "ambiguous")
@@ -176,7 +185,7 @@ def select(tier, seed, want=None, extra_tags=()):
     rng = random.Random(seed)
     must = {}
     for x in F:
-        if "heavy" in x[1] or "logical" in x[1]:
+        if "heavy" in x[1] or "logical" in x[1] or "bytesdefault" in x[1]:
             continue  # symbolic maps of named types: explored by the checks that list them explicitly (C12), thorough elsewhere
         for t in x[1]:
             must.setdefault(t, []).append(x)
